@@ -232,6 +232,7 @@ static void sched_child(const void *job, size_t n) {
 		uint8_t cap = 200, m[16], f[40]; int ml = rc_build_msg(m, IFACE, 0, MSG_PKT_CAPACITY, &cap, 1);
 		env_push_quiet(f, rc_frame(f, m, (size_t) ml, 1));
 	}
+	env_write_yields = 1;       /* a write callback that blocks: the calling thread can be descheduled inside it */
 	vs_window(1);
 	int t1 = vs_spawn(s_t1, NULL), t2 = vs_spawn(s_t2, NULL), t3 = vs_spawn(s_t3, NULL);
 	vs_join_tid(t1); vs_join_tid(t2); vs_join_tid(t3);
